@@ -794,6 +794,18 @@ func cfWhole(r *hx.Result, rng *rand.Rand, tmp string, mutations int) {
 			}
 		}},
 		{"dangling appender ref", func(m map[string]string) { m["logger.syn.appenderRef.ref"] = "nosuch" }},
+		{"dangling appender ref with an empty level range", func(m map[string]string) {
+			m["logger.syn.appenderRef.ref"], m["logger.syn.appenderRef.level"] = "nosuch", "error~info"
+		}},
+		{"dangling appender ref with a one-point-empty range", func(m map[string]string) {
+			m["logger.syn.appenderRef.ref"], m["logger.syn.appenderRef.level"] = "nosuch", "warn~warn"
+		}},
+		{"dangling second appender ref at MAX", func(m map[string]string) {
+			m["logger.asy.appenderRef[1].ref"], m["logger.asy.appenderRef[1].level"] = "nosuch", "max"
+		}},
+		{"dangling appender ref with a bounded range", func(m map[string]string) {
+			m["logger.syn.appenderRef.ref"], m["logger.syn.appenderRef.level"] = "nosuch", "info~error"
+		}},
 		{"unknown logger type", func(m map[string]string) { m["logger.syn.type"] = "Nope" }},
 		{"unknown appender type", func(m map[string]string) { m["appender.con.type"] = "Nope" }},
 		{"unknown layout type", func(m map[string]string) { m["appender.con.layout.type"] = "Nope" }},
